@@ -142,6 +142,20 @@ Example C03_coupling_happens :
   /\ length m = 3%nat.
 Proof. exact coupling_happens_proof. Qed.
 
+(* the same decay twice in one chain, both occurrences flipped with identical suffixes (eta = -1
+   each): all three nodes are flipped, the two omega nodes have the same suffix, the prefactor is
+   (+1)(-1)(-1) = 1 - a product over distinct suffixes would give -1 *)
+Example C03_equal_suffix_nodes_count_twice :
+  let m := register wit_fl twin_ts in
+  map (flipped wit_fl m) (twin_chain (-2) (-2)) = [true; true; true]
+  /\ map (raw wit_fl) (skipn 1 (twin_chain (-2) (-2)))
+     = [raw wit_fl (nth 1 (twin_chain (-2) (-2)) (nth 0 (twin_chain 2 2) (mkNode (wit_state 0 0) (wit_state 0 0) (wit_state 0 0) 0 0 None)));
+        raw wit_fl (nth 1 (twin_chain (-2) (-2)) (nth 0 (twin_chain 2 2) (mkNode (wit_state 0 0) (wit_state 0 0) (wit_state 0 0) 0 0 None)))]
+  /\ prefactor wit_fl m (twin_chain (-2) (-2)) = 1
+  /\ seq_suffix wit_fl m (twin_chain (-2) (-2)) = seq_suffix wit_fl m (twin_chain 2 2)
+  /\ diff_eta wit_fl (twin_chain 2 2) (twin_chain (-2) (-2)) = 1.
+Proof. exact twin_nodes_proof. Qed.
+
 Print Assumptions C03_mapping_invariant.
 Print Assumptions C03_pp_involutive_std.
 Print Assumptions C03_no_coupling_without_child_helicities.
@@ -158,3 +172,4 @@ Print Assumptions C03_CG_reflection_satisfiable.
 Print Assumptions C03_eta_jpsi_sigma.
 Print Assumptions C03_eta_sigma_kp.
 Print Assumptions C03_coupling_happens.
+Print Assumptions C03_equal_suffix_nodes_count_twice.
